@@ -18,8 +18,8 @@ RULE = (
 )
 ASSUMPTIONS = ["value comparison of mapped densities uses a conditioning-aware tolerance (skipped, and counted, when (max-min) of the pdf is below 1e-9 of its magnitude)"]
 BUDGET = {
-    "quick": {"examples": 3200, "shards": 8, "min_nontrivial": 500},
-    "thorough": {"examples": 64000, "shards": 16, "min_nontrivial": 10000, "max_wall": 3000},
+    "quick": {"examples": 9600, "shards": 16, "min_nontrivial": 500},
+    "thorough": {"examples": 256000, "shards": 16, "min_nontrivial": 10000, "max_wall": 3000},
 }
 KNN_METRICS = sorted(n for n in M.NAMES if M.dissimilarity(n))
 
@@ -30,7 +30,7 @@ def _case(draw, nmax):
     n = draw(st.one_of(st.integers(1, 6), st.integers(2, nmax)))
     k = draw(st.one_of(st.integers(1, max(1, n - 1)), st.integers(1, n + 2)))
     heights = draw(st.lists(st.one_of(st.sampled_from([-1.0, 0.0, 0.5, 1.0, 10.0, 999.0, 1000.0, 2000.0]), st.floats(0.001, 1500.0)), min_size=1, max_size=3))
-    case = {"mode": mode, "n": n, "k": k, "heights": heights}
+    case = {"mode": mode, "n": n, "k": k, "heights": heights, "k_pdf": draw(st.one_of(st.none(), st.integers(1, max(1, min(k, n - 1)))))}
     if mode == "pre":
         W, wm = draw(gen.weight_matrix(n))
         if draw(st.integers(0, 5)) == 0:
@@ -128,6 +128,11 @@ def check_case(case):
     require(float(sg.density) == exp_bound, "arcs:density_bound", lambda: "subgraph.density %r expected %r (max listed distance %r)" % (sg.density, exp_bound, bound))
 
     distinct_dens = 0
+    k_arcs = k
+    if case.get("k_pdf") and case["k_pdf"] <= min(k, n - 1) and n >= 2:
+        # density over the k' <= k nearest of arcs created with k (the pattern of the unsupervised k search)
+        k = case["k_pdf"]
+        cl.append("pdf_k_smaller_than_arcs" if k < k_arcs else "pdf_k_equals_arcs")
     if k <= n - 1:
         adjs = [[int(a) for a in sg.nodes[i].adjacency] for i in range(n)]
         libcall(sg.calculate_pdf, k, *args)
